@@ -373,6 +373,15 @@ class Fn(object):
             return args[0]
         if kind == "fut":
             return w.make_future(b[1], b[2] if len(b) > 2 else None, "%s#%d" % (self.name, k))
+        if kind == "resolve_via_poll":
+            # ["resolve_via_poll", pollfn name, inner]: a cancel function that resolves the very future it is asked about, through
+            # the PollDescriptor the poll function was given for it, and then behaves as `inner`
+            pf = w.fns.get(b[1])
+            for d in list(getattr(pf, "last", []) or []):
+                if d.result == args[0]:
+                    w.rec("cancelfn_resolves", fn=self.name, value=jsonable(("stopped", args[0])))
+                    d.yield_result(("stopped", args[0]))
+            return self._do(b[2], k, args, kwargs)
         if kind == "compose":
             v = args[0]
             for sub_b in b[1]:
@@ -503,9 +512,11 @@ class PollFn(object):
     calls:   list of per-call extras: {"raise": "E1"} / {"ret": interval}; call k uses calls[min(k,last)]
     """
 
-    def __init__(self, world, name, per_sub, calls):
+    def __init__(self, world, name, per_sub, calls, keep=False):
         self.w = world
         self.name = name
+        self.keep = keep
+        self.last = []
         self.per_sub = per_sub or {}
         self.calls = [c for c in (calls or [{}]) if "at" not in c] or [{}]
         self.at = [[c["at"], dict((k, v) for k, v in c.items() if k != "at")] for c in (calls or []) if "at" in c]
@@ -524,6 +535,8 @@ class PollFn(object):
                 extra = ent[1]
                 break
         results = [d.result for d in descriptors]
+        if self.keep:
+            self.last = list(descriptors)  # (user code may keep descriptors, e.g. to resolve a future from its cancel function)
         w.rec("poll_call", fn=self.name, k=k, results=jsonable(results))
         try:
             if "vsleep" in extra:
@@ -668,7 +681,7 @@ class World(object):
         if k == "retry":
             return Executors.with_retry(ex, retry_policy=self.policy(lname + ".policy", layer.get("policy")), **kw)
         if k == "poll":
-            pf = PollFn(self, lname + ".poll", layer.get("per_sub"), layer.get("calls"))
+            pf = PollFn(self, lname + ".poll", layer.get("per_sub"), layer.get("calls"), keep=bool(layer.get("keep_descriptors")))
             self.fns[pf.name] = pf
             return Executors.with_poll(ex, pf, cancel_fn=self.fn(lname + ".cancelfn", layer.get("cancel")),
                                        default_interval=layer.get("interval", 1.0), **kw)
@@ -712,7 +725,7 @@ class World(object):
         if k == "retry":
             return target.with_retry(retry_policy=self.policy(lname + ".policy", layer.get("policy")), **kw)
         if k == "poll":
-            pf = PollFn(self, lname + ".poll", layer.get("per_sub"), layer.get("calls"))
+            pf = PollFn(self, lname + ".poll", layer.get("per_sub"), layer.get("calls"), keep=bool(layer.get("keep_descriptors")))
             self.fns[pf.name] = pf
             return target.with_poll(pf, default_interval=layer.get("interval", 1.0), **kw)
         if k == "throttle":
